@@ -44,7 +44,7 @@ func Harness(prop string) func(ctx *common.Ctx) error {
 				if f.Prop == prop {
 					res.Fail(f.Canon, "corpus "+sc.Name+": "+f.Detail, map[string]interface{}{"history": run.Hist, "step": f.Step})
 				}
-				if prop == "C05" && f.Prop == "C02" && f.Canon == "session keeps showing a message that is no longer in the mailbox" {
+				if prop == "C05" && f.Prop == "C02" && (f.Canon == "session keeps showing a message that is no longer in the mailbox" || f.Canon == "session view and mailbox differ in both directions") {
 					res.Fail("removal never announced: "+f.Canon, "corpus "+sc.Name+": "+f.Detail, map[string]interface{}{"history": run.Hist, "step": f.Step})
 				}
 			}
@@ -89,7 +89,7 @@ func Harness(prop string) func(ctx *common.Ctx) error {
 				}
 				// C05 "every removal is announced by the next command that permits it": at a quiescence point (all
 				// updates delivered, NOOP done) the session still shows a message the mailbox no longer holds
-				if prop == "C05" && f.Prop == "C02" && f.Canon == "session keeps showing a message that is no longer in the mailbox" {
+				if prop == "C05" && f.Prop == "C02" && (f.Canon == "session keeps showing a message that is no longer in the mailbox" || f.Canon == "session view and mailbox differ in both directions") {
 					res.Fail("removal never announced: "+f.Canon, f.Detail, map[string]interface{}{"history": run.Hist, "step": f.Step})
 				}
 			}
